@@ -65,5 +65,12 @@ func IngressPods(ctx context.Context, srcbase ingress.Controller, svcbase servic
 		svcs.Close()
 		return nil, err
 	}
+
+	// the intermediate join belongs to the result: stop it with the result
+	go func() {
+		<-pods.Done()
+		svcs.Close()
+	}()
+
 	return pods, nil
 }
